@@ -6,7 +6,8 @@ patch="$(realpath "$1")"; shift
 cd /verif
 if ! git -C /repo diff --quiet; then echo "/repo working tree is dirty"; exit 3; fi
 if ! git -C /repo apply "$patch"; then echo "patch does not apply"; exit 3; fi
-trap 'git -C /repo checkout -- . >/dev/null 2>&1' EXIT
+# always revert, and rebuild the binaries from the clean tree afterwards
+trap 'git -C /repo checkout -- . >/dev/null 2>&1; /verif/check setup >/dev/null 2>&1' EXIT
 for p in "$@"; do
   out=$(./check "$p" quick 2>&1); rc=$?
   echo "$out" | grep -E "^VIOLATION|^KNOWN|^HARNESS|^vsim: [0-9]+ x" | cut -c1-330
